@@ -84,7 +84,11 @@ def amplify(item, cls, Cfg, rid):
             final = universe.make_spec(rng, kind=rng.choice(kinds), minmax=rng.choice(["min", "max"]))
         final["seed"] = rng.randint(0, 2 ** 32 - 1)
         final.pop("_raise_after", None)
-        cfg_j = cfg_l if j % 2 == 0 else item["cfg"]
+        # left-over state may also feed the stop logic: budgets without / with early stopping (patience 3 and 5) / fitness_error
+        cfg_j = [cfg_l, item["cfg"],
+                 dict(cfg_l, early_stopping={"patience": 3, "min_delta": 1e-3}),
+                 dict(cfg_l, early_stopping={"patience": 5, "min_delta": 0.5}),
+                 dict(cfg_l, fitness_error=0.5)][(j // 2 + j) % 5]
         try:
             used = cls(Cfg(**(item.get("cfg0") or cfg_j)))
             for q, e in enumerate(item["earlier"]):
